@@ -233,10 +233,9 @@ def runCall (g : Gm) (m : Mdl) (st : St) (c : CallRec) : St :=
       let diffs := if !sd.isEmpty then diffs ++ (vd.take 1).map (fun s => s!"{cn} tree {s}") else diffs
       (t', diffs, fails)
   -- returned action = first maximum of the root values (tie-break of std::max_element); not a property clause
-  let rootVs := match rootD with | some r => r.acts.map (·.2) | none => []
-  let diffs := match rootVs with
-    | [] => diffs
-    | v :: vs => if firstArgmax vs 1 0 v != c.ret then diffs ++ [s!"{cn} returned_action model={firstArgmax vs 1 0 v} impl={c.ret}"] else diffs
+  let rootVs : List Rat := match rootD with | some r => r.acts.map (fun x => x.2) | none => []
+  let bestM := if c.h == 0 then 0 else argmaxV (fun a => rootVs.getD a 0) rootVs.length
+  let diffs := if bestM != c.ret then diffs ++ [s!"{cn} returned_action model={bestM} impl={c.ret}"] else diffs
   { t := t', prev := c.dump, budget := budget, rootStates := rootStates, diffs := diffs, fails := fails, sims := st.sims + c.iters }
 
 def emptyTree : Tree := Tree.fresh [] 0 0
@@ -422,10 +421,9 @@ def runRCall (g : Gm) (m : Mdl) (kk : Nat) (st : RSt) (c : RCallRec) : RSt :=
       let fails := if sd.isEmpty && rest.length == 0 then fails ++ ((vd.filter (fun (s : String) => s.startsWith "V at")).take 1).map (fun s => s!"{cn} v_not_mean {s}") else fails
       let diffs := diffs ++ ((vd.filter (fun (s : String) => !(s.startsWith "V at") || !sd.isEmpty)).take 2).map (fun s => s!"{cn} tree {s}")
       (t', diffs, fails)
-  let rootVs := match rootD with | some r => r.acts.map (·.2) | none => []
-  let diffs := match rootVs with
-    | [] => diffs
-    | v :: vs => if firstArgmax vs 1 0 v != c.ret then diffs ++ [s!"{cn} returned_action model={firstArgmax vs 1 0 v} impl={c.ret}"] else diffs
+  let rootVs : List Rat := match rootD with | some r => r.acts.map (fun x => x.2) | none => []
+  let bestM := if c.h == 0 then 0 else argmaxV (fun a => rootVs.getD a 0) rootVs.length
+  let diffs := if bestM != c.ret then diffs ++ [s!"{cn} returned_action model={bestM} impl={c.ret}"] else diffs
   { t := t', prev := c.dump, diffs := diffs, fails := fails, sims := st.sims + c.iters }
 
 def rrun : P String := do
